@@ -64,7 +64,7 @@ def gen_tau2():
         "d": st.integers(2, 8), "pen": st.sampled_from(["diff", "diff", "random"]), "order": st.integers(1, 3), "r": st.integers(1, 8),
         "logscale": st.sampled_from([0.0, 0.0, -3.0, 3.0, 1.0]), "a": st.sampled_from([0.01, 0.5, 1.0, 3.0, 10.0]), "b": st.sampled_from([0.01, 0.5, 1.0, 3.0, 10.0]),
         "beta_kind": st.sampled_from(["random", "random", "null", "range"]), "builder": st.sampled_from(["distreg", "hand"]),
-        "seed": st.integers(0, 10**6), "case_seed": st.integers(0, 2**30), "tau2_0": f32(-1, 1),
+        "seed": st.integers(0, 10**6), "case_seed": st.integers(0, 2**30), "tau2_0": f32(-1, 1), "move_hyper": st.booleans(),
     })
 
 
@@ -130,6 +130,10 @@ def oracle_tau2(c):
     iface = gs.LieselInterface(model)
     kernel.set_model(iface)
     state = model.state
+    if c.get("move_hyper"):
+        # "given all other CURRENT values": the hyperparameters in the state are changed after the kernel was created
+        c = dict(c, a=c["a"] * 2.0 + 0.5, b=c["b"] * 0.5 + 0.25)
+        state = iface.update_state({group["a"].name: jnp.float32(c["a"]), group["b"].name: jnp.float32(c["b"])}, state)
     # --- the model's own full conditional of tau2 on a log grid
     a_an, b_an = c["a"] + 0.5 * rank, c["b"] + 0.5 * quad
     mode = b_an / (a_an + 1)
@@ -164,7 +168,7 @@ def oracle_tau2(c):
     out = kernel.transition(jax.random.PRNGKey(c["case_seed"] % 2**31), kernel.init_state(None, state), state, None)
     new = out.model_state
     require(float(new[group["tau2"].value_node.name].value) > 0 and out.info.acceptance_prob == 1.0, "tau2:transition-info", det)
-    return {"nt": bool(r < d and quad > 1e-6), "cls": [c["builder"], c["pen"], "deficient" if r < d else "full", c["beta_kind"], f"scale{c['logscale']}"],
+    return {"nt": bool(r < d and quad > 1e-6), "cls": [c["builder"], c["pen"], "hyper-moved" if c.get("move_hyper") else "hyper-fixed", "deficient" if r < d else "full", c["beta_kind"], f"scale{c['logscale']}"],
             "extra": {"max_abs_z": rep["max_abs_z"]}}
 
 
